@@ -39,7 +39,7 @@ def run(ctx):
                        'shadow live counter: raised after a successful allocation, lowered before the release call',
                        'cached chunks = allocator-callback mallocs - frees - live, exact at quiescence']
     seed = ctx.seed
-    k = 30 if thorough else 1
+    k = 8 if thorough else 1
     jobs = []
     for flavour in ('asan', 'rel'):
         exe = _exe(ctx, flavour)
@@ -56,7 +56,7 @@ def run(ctx):
                 jobs.append(dict(kind='arena', flavour=flavour, par=1 if t >= 8 else 3,
                                  cmd=[exe, '--mode', 'arena', '--threads', t, '--cases', (9, 9, 6, 6)[ti] * (2 if thorough else 1), '--rounds', 6, '--ops', 200 if heavy else 100,
                                       '--seed', seed * 7001 + ti * 100 + rep * 1000, '--yield-cycle', '--tightcache', 300 if thorough else 150]))
-        for rep in range(4 * k if thorough else (1 if flavour == 'asan' else 0)):
+        for rep in range(k if thorough else (1 if flavour == "asan" else 0)):
             jobs.append(dict(kind='arena', flavour=flavour, par=3, realfree=True,
                              cmd=[exe, '--mode', 'arena', '--threads', 4, '--cases', 6, '--rounds', 6, '--ops', 100, '--seed', seed * 911 + rep,
                                   '--yield', 300, '--yield-us', 20, '--tightcache', 1000, '--real-free', 1]))
